@@ -177,7 +177,7 @@ pub fn run(ctx: &Ctx) {
                 if n == 70 {
                     rep.sample(json!({"ctx": base, "clean": seen.is_empty()}));
                 }
-                if rep.nviol.load(std::sync::atomic::Ordering::Relaxed) >= 40 {
+                if rep.nviol.load(std::sync::atomic::Ordering::Relaxed) >= 12 {
                     return;
                 }
             }
